@@ -37,4 +37,46 @@ CHECKS = {
             F("FuzzC17Token", "60s"),
         ],
     ),
+    "C09": dict(
+        level="exploration",
+        rule=("rapid draws an event declaration (type trees from the C09 grammar: uintN/intN/address/bool/bytesN/bytes/string, T[k] k=1..13, T[], tuples, "
+              "arrays of tuples, tuples containing arrays, depth <=3 (Decode) / <=4 (DecodeDeep); selected leaves never in arrays below array-element tuples), renders it to ABI JSON "
+              "for shovel's own parser, draws 1..5 value sets, encodes them with the independent encoder and pushes them through ONE decoder instance; rows/cells are compared with the row rule. "
+              "non-trivial = dynamic type below an array/tuple, or T[k] with k>=10, or an unselected dynamic input before a selected leaf; distinct = distinct (ABI JSON, #logs, max rows)."),
+        assumptions=["the reference encoder/row rule in harness/refmodel/abi.go follows the Solidity ABI spec",
+                     "value sizes are bounded (dynamic arrays <=4 elements, bytes <=70) — shape, not size, is what the decoder branches on"],
+        units=[
+            R("TestC09_Decode", 60000, 3000000),
+            R("TestC09_DecodeDeep", 20000, 1000000),
+            P("TestC09_KnownFindings"),
+            F("FuzzC09", "90s"),
+        ],
+    ),
+    "C10": dict(
+        level="exploration",
+        rule=("Hostile: rapid draws a declaration (C09 grammar), a valid encoding, then one mutation: boundary value (0,1,31,32,len-32..len+32,2^31,2^32,2^63,2^64-32,2^64-1,2^64,2^255,2^256-1 ...) written over one or two "
+              "offset/length words (positions known from the reference encoder), over any word, truncation, random bytes with plausible small words, or trailing garbage; oracle: no panic, error or every cell a sub-slice "
+              "of the (cap==len) input, rows <= (#arrays+1)*(len/32+2)^arraydepth, bytes allocated (runtime.MemStats) below a fixed multiple of that, decoder still exact on the next valid log, Integration.Insert does not panic. "
+              "AllTruncations: per declaration EVERY prefix of the valid encoding and EVERY boundary word at EVERY offset/length position. non-trivial = the mutated/cut word is one the decoder reads as offset or length."),
+        assumptions=["allocation is measured with runtime.ReadMemStats on the test goroutine; no wall-clock criterion is used"],
+        units=[
+            R("TestC10_Hostile", 80000, 3000000),
+            R("TestC10_AllTruncations", 1600, 40000),
+            P("TestC10_KnownFindings"),
+            F("FuzzC10", "120s"),
+        ],
+    ),
+    "C13": dict(
+        level="exploration",
+        rule=("Signature: rapid event declarations (tuples, tuple arrays, nested, fixed/dynamic arrays up to depth 4, any indexed layout) -> dig.Event.Signature/SignatureHash vs. reference canonical string and stand-alone Keccak-256; "
+              "eth.Keccak vs. the stand-alone Keccak on random bytes; KnownVectors: mainnet topics (Transfer, Approval, ApprovalForAll, Swap, Seaport OrderFulfilled). "
+              "Gate: one block of 1..6 logs per case (matching; same hash with 0..4 other topic counts; other hash; similar signature; one-bit-different hash; no topics) through Integration.Insert, rows per log compared with the gate. "
+              "non-trivial = nested tuple / tuple array in the signature, or a decoy that differs only in the number of topics."),
+        assumptions=["indexed inputs are static elementary types (their topic is the value)"],
+        units=[
+            P("TestC13_KnownVectors"),
+            R("TestC13_Signature", 30000, 1000000),
+            R("TestC13_Gate", 20000, 600000),
+        ],
+    ),
 }
